@@ -10,6 +10,7 @@ Import ListNotations.
 Require Import Gram.Model.Term Gram.Model.DeBruijn Gram.Model.Eval Gram.Spec.Cbv Gram.Proofs.CbvProofs.
 Require Import Gram.Model.ModelB Gram.Spec.Typing Gram.Proofs.ConfluenceTyping Gram.Proofs.ConvConsistent Gram.Proofs.SafetyHF.
 Require Gram.Proofs.ConfluenceEval Gram.Proofs.TcSoundHF.
+Require Gram.Model.ParserPost Gram.Proofs.EvalEnvProofs Gram.Proofs.DefinitionOrder.
 
 Theorem C01_stuck_classified : forall t, step t = None -> is_value t = false ->
   exists E r k, ectx_ok E = true /\ t = plug E r /\ stuck_redex r k /\ stuck_reason t = Some k.
@@ -70,3 +71,26 @@ Theorem C01_typing_alone_admits_unproductive_groups : ltac:(let T := type of gro
 Proof. exact group_progress_fails. Qed.
 Check C01_typing_alone_admits_unproductive_groups : has_type [] loop_group TInt /\ _ /\ _ /\ _ /\ stuck_reason loop_group = Some FreeVariable /\ _.
 Print Assumptions C01_typing_alone_admits_unproductive_groups.
+
+(* "A definition that is not yet available" (Proofs/DefinitionOrder.v), in the shape `~ KnownClass t -> P t`: `order_ok` /
+   `order_ok_lazy` are executable corrected definition-order checks (from a computed definition no member of the group at
+   or after it may be reachable, through value and non-value definitions alike); a closed program that passes never reads
+   an empty cell in the reference interpreter and - by the agreement theorem of C02 - the evaluator model never stops on a
+   group variable that has not been substituted yet. The strict check implies the modelled guard; the guard accepts the
+   two D7 witnesses, the corrected checks reject them, and both interpreters are stuck on them. *)
+Theorem C01_corrected_order_check_excludes_unavailable_definitions : forall t, EvalEnvProofs.bnd 0 t = true -> hole_free t = true -> DefinitionOrder.order_ok_lazy t = true ->
+  forall f t', evaluate f t = Some t' -> stuck_reason t' <> Some FreeVariable.
+Proof. exact DefinitionOrder.order_ok_lazy_evaluate. Qed.
+Check C01_corrected_order_check_excludes_unavailable_definitions : forall t, EvalEnvProofs.bnd 0 t = true -> hole_free t = true -> DefinitionOrder.order_ok_lazy t = true ->
+  forall f t', evaluate f t = Some t' -> stuck_reason t' <> Some FreeVariable.
+Print Assumptions C01_corrected_order_check_excludes_unavailable_definitions.
+
+Theorem C01_strict_order_check_implies_the_guard : forall t, hole_free t = true -> DefinitionOrder.order_ok t = true -> ParserPost.check_definitions t = ParserPost.CDOk 0.
+Proof. exact DefinitionOrder.order_ok_check_definitions. Qed.
+Check C01_strict_order_check_implies_the_guard : forall t, hole_free t = true -> DefinitionOrder.order_ok t = true -> ParserPost.check_definitions t = ParserPost.CDOk 0.
+Print Assumptions C01_strict_order_check_implies_the_guard.
+
+Theorem C01_D7_guard_accepts_checks_reject : ltac:(let T1 := type of DefinitionOrder.d7_guard_accepts in let T2 := type of DefinitionOrder.order_ok_rejects in let T3 := type of DefinitionOrder.d7_evaluate_stuck in exact (T1 /\ T2 /\ T3)).
+Proof. exact (conj DefinitionOrder.d7_guard_accepts (conj DefinitionOrder.order_ok_rejects DefinitionOrder.d7_evaluate_stuck)). Qed.
+Check C01_D7_guard_accepts_checks_reject : _ /\ _ /\ _.
+Print Assumptions C01_D7_guard_accepts_checks_reject.
